@@ -12,6 +12,7 @@ import BR.Model.MR
 import BR.Model.Tm
 import BR.Model.Screw
 import BR.Model.Helpers
+import BR.Model.RRT
 
 namespace BR.Driver
 
@@ -227,6 +228,7 @@ end HlpIO
 structure DState where
   comms : BR.Comms.St := BR.Comms.init []
   tms : List (BR.TmModel.Tm Float) := []
+  rrt : List (BR.RRT.Node Float) := [BR.RRT.root]
 
 namespace TmIO
 open BR.TmModel BR.MR MRIO
@@ -321,6 +323,31 @@ def handleState (st : DState) (fn : String) (args : List String) : Option (DStat
         let (s', r, evs) := BR.Comms.step st.comms op
         some ({ st with comms := s' }, CommsIO.fmtRet r ++ "|" ++ ";".intercalate (evs.map CommsIO.fmtEv))
       | none => some (st, "bad-op")
+  | "rrt.reset" => some ({ st with rrt := [BR.RRT.root] }, "ok")
+  | "rrt.iter" =>
+      -- rrt.iter <nearest> <dist0> <coll0> (<cand id> <dist> <collides>)*
+      match args with
+      | nr :: d0 :: c0 :: rest =>
+        let rec cands (l : List String) (acc : List (BR.RRT.Cand Float)) : Option (List (BR.RRT.Cand Float)) :=
+          match l with
+          | [] => some acc.reverse
+          | i :: d :: c :: r => match i.toNat?, parseFloat d with
+            | some i, some d => cands r ({ id := i, dist := d, collides := c == "1" } :: acc)
+            | _, _ => none
+          | _ => none
+        match nr.toNat?, parseFloat d0, cands rest [] with
+        | some nr, some d0, some cs =>
+          let t := BR.RRT.insert st.rrt { nearest := nr, dist0 := d0, coll0 := c0 == "1", cands := cs }
+          match t.getLast? with
+          | some n => some ({ st with rrt := t }, s!"{n.parent.getD 0} {fmtFloat n.cost} {fmtFloat n.edge}")
+          | none => some (st, "bad-op")
+        | _, _, _ => some (st, "bad-op")
+      | _ => some (st, "bad-op")
+  | "rrt.path" => match args with
+      | [i] => match i.toNat? with
+        | some i => some (st, " ".intercalate ((BR.RRT.pathTo st.rrt st.rrt.length i).map toString))
+        | none => some (st, "bad-op")
+      | _ => some (st, "bad-op")
   | "tm.reset" => some ({ st with tms := [] }, "ok")
   | "tm.op" => match TmIO.parseOp args with
       | some op =>
